@@ -708,3 +708,13 @@ def to_dict(self):
     tree_dict = {'graph': self._graph.edge_list(), 'node_idx': self._node_indices.copy(), 'node_idx_rev': self._node_indices_rev.copy(), 'node_data': {k: v.copy() for k, v in self._data.items()}, 'grid_size': self.grid_size, 'node_last_added_to': self._last_node_added_to, 'log_prior': self._log_prior}
     return tree_dict
 """
+
+REFERENCE['phyclone.tree.tree.Tree._is_data_point_in_tree'] = """
+def _is_data_point_in_tree(self, data_point):
+    dp_idx = data_point.idx
+    data_point_is_present = sum(map(lambda x: dp_idx in x.data_points, self._graph.nodes()))
+    if self._OUTLIER_NODE_NAME in self._data:
+        dp_in_outliers = data_point in self._data[self._OUTLIER_NODE_NAME]
+        data_point_is_present += dp_in_outliers
+    return data_point_is_present
+"""
